@@ -14,5 +14,6 @@ open Neutrino.PushTx
 #print axioms C15_verdict_no_reply
 #print axioms C15_nonblocking
 #print axioms C15_after_stop_returns
+#print axioms C15_closed_subscription_harmless
 #print axioms C15_source_shape
 #print axioms C15_parse_table
